@@ -10,6 +10,7 @@
 -/
 import Jb.Proofs.Cepstrum
 import Jb.Proofs.MlsaLinear
+import Jb.Proofs.Lti
 
 set_option linter.unusedSectionVars false
 
@@ -52,5 +53,19 @@ instance : Transc ℚ := ⟨id, id, id, id, fun x _ => x⟩
 instance : Consts ℚ := ⟨10, 3, 1 / 17, 1 / 9, -10000000000, 3, 1 / 10 ^ 100⟩
 example : mc2b (1 / 2 : ℚ) [1, 2, 4] = [1, 0, 4] := by
   rw [mc2b_cons, mc2b_cons, mc2b_cons, mc2b_nil]; norm_num
+
+/-- **The pulse response determines the filter.** With frozen coefficients the MLSA filter (Padé cascade as
+    coded) is linear and time-invariant: its output on ANY excitation is the convolution of the excitation
+    with its response to one pulse — which is the response the check measures on the implementation. -/
+theorem response_is_convolution (alpha : K) (c : List K) (nmcp : Nat) (xs : List K) (n : Nat) (hn : n < xs.length) :
+    (mlsaRun alpha c (MlsaSt.init nmcp) xs).getD n 0 =
+      (Finset.range (n + 1)).sum fun k => (mlsaPulse alpha c nmcp xs.length).getD k 0 * xs.getD (n - k) 0 :=
+  mlsaRun_convolution alpha c nmcp xs n hn
+
+/-- superposition (zero initial state) -/
+theorem response_additive (alpha : K) (c : List K) (nmcp : Nat) (xs ys : List K) (h : xs.length = ys.length) :
+    mlsaRun alpha c (MlsaSt.init nmcp) (List.zipWith (· + ·) xs ys) =
+      List.zipWith (· + ·) (mlsaRun alpha c (MlsaSt.init nmcp) xs) (mlsaRun alpha c (MlsaSt.init nmcp) ys) :=
+  mlsaRun_add alpha c nmcp xs ys h
 
 end Jb.C06
